@@ -379,6 +379,15 @@ class ForiLoopPlugin(PrimitiveLeafPlugin):
                 raise TypeError("fori_loop body must preserve state structure")
             return cast(list[Any], new_leaves)
 
+        lower_kind = np.asarray(lower).dtype.kind
+        upper_kind = np.asarray(upper).dtype.kind
+        if lower_kind not in "iu" or upper_kind not in "iu":
+            # JAX rejects mixed bounds; a float pair would give the body a float index.
+            raise TypeError(
+                "fori_loop export requires integer lower and upper bounds, got "
+                f"{np.asarray(lower).dtype} and {np.asarray(upper).dtype}"
+            )
+
         body_closed = jax.make_jaxpr(body_flat)(0, *leaves)
         trip_count = int(np.asarray(upper).item()) - int(np.asarray(lower).item())
         if trip_count < 0:
